@@ -12,6 +12,7 @@ structure ChanInv (ch : Chan) : Prop where
   send_full : ch.sendQ ≠ [] → ch.cap ≤ ch.buf.length
   nil_empty : ch.isNil = true → ch.sendQ = [] ∧ ch.recvQ = [] ∧ ch.buf = [] ∧ ch.cap = 0
   fifo : ch.hRecv ++ ch.buf = ch.hCommit
+  nil_open : ch.isNil = true → ch.closed = false
 
 /-- `b` is `a` with some queue entries removed (and possibly closed) -/
 structure Shrink (a b : Chan) : Prop where
@@ -46,13 +47,14 @@ theorem ChanInv.shrink {a b : Chan} (h : ChanInv a) (s : Shrink a b) : ChanInv b
     rw [s.buf, s.cap]
     exact ⟨sub_eq_nil s.sendQ this.1, sub_eq_nil s.recvQ this.2.1, this.2.2⟩
   fifo := by rw [s.hRecv, s.buf, s.hCommit]; exact h.fifo
+  nil_open := fun hn => by rw [s.closed]; exact h.nil_open (s.isNil ▸ hn)
 
 theorem inv_nil : ChanInv Chan.nil :=
-  ⟨by decide, by intro h; exact absurd rfl h, by intro h; exact absurd rfl h, by intro _; exact ⟨rfl, rfl, rfl, rfl⟩, rfl⟩
+  ⟨by decide, by intro h; exact absurd rfl h, by intro h; exact absurd rfl h, by intro _; exact ⟨rfl, rfl, rfl, rfl⟩, rfl, by intro _; rfl⟩
 
 theorem inv_make (cap : Nat) : ChanInv (Chan.make cap) :=
   ⟨Nat.zero_le _, by intro h; exact absurd rfl h, by intro h; exact absurd rfl h,
-   by intro h; simp [Chan.make] at h, rfl⟩
+   by intro h; simp [Chan.make] at h, rfl, by intro _; rfl⟩
 
 /-! ### channel lists, addressed with `getD _ Chan.nil` -/
 
@@ -144,7 +146,7 @@ theorem doSend_inv (s : State) (g c v : Nat) (h : AllInv s.chans) : AllInv (doSe
       simp only [setC_chans]
       apply h.set
       have hb : ch.buf = [] := hc.recv_buf (by rw [heq]; simp)
-      refine ⟨hc.buf_le, fun _ => hb, hc.send_full, ?_, ?_⟩
+      refine ⟨hc.buf_le, fun _ => hb, hc.send_full, ?_, ?_, hc.nil_open⟩
       · intro hn; have := (hc.nil_empty hn).2.1; rw [heq] at this; cases this
       · have := hc.fifo; simp only [hb, List.append_nil] at this ⊢; rw [this]
     · next heq =>
@@ -152,7 +154,7 @@ theorem doSend_inv (s : State) (g c v : Nat) (h : AllInv s.chans) : AllInv (doSe
       · next hlt =>
         simp only [setC_chans]
         apply h.set
-        refine ⟨?_, ?_, ?_, ?_, ?_⟩
+        refine ⟨?_, ?_, ?_, ?_, ?_, hc.nil_open⟩
         · simp; omega
         · intro hr; exact absurd heq hr
         · intro hs; have := hc.send_full hs; omega
@@ -161,7 +163,7 @@ theorem doSend_inv (s : State) (g c v : Nat) (h : AllInv s.chans) : AllInv (doSe
       · next hge =>
         simp only [block_chans, setC_chans]
         apply h.set
-        refine ⟨hc.buf_le, hc.recv_buf, ?_, ?_, hc.fifo⟩
+        refine ⟨hc.buf_le, hc.recv_buf, ?_, ?_, hc.fifo, hc.nil_open⟩
         · intro _; simp only; omega
         · intro hn
           have := hc.nil_empty hn
@@ -176,7 +178,7 @@ theorem recvTail_inv (s : State) (g c : Nat) (h : AllInv s.chans) (hq : (getC s 
   split
   · next v b heq =>
     simp only [setC_chans]; apply h.set
-    refine ⟨?_, ?_, ?_, ?_, ?_⟩
+    refine ⟨?_, ?_, ?_, ?_, ?_, hc.nil_open⟩
     · have := hc.buf_le; rw [heq] at this; simp at this ⊢; omega
     · intro hr; have := hc.recv_buf hr; rw [heq] at this; cases this
     · intro hs; exact absurd hq hs
@@ -186,7 +188,7 @@ theorem recvTail_inv (s : State) (g c : Nat) (h : AllInv s.chans) (hq : (getC s 
     split
     · split <;> exact h
     · simp only [block_chans, setC_chans]; apply h.set
-      refine ⟨hc.buf_le, fun _ => heq, hc.send_full, ?_, hc.fifo⟩
+      refine ⟨hc.buf_le, fun _ => heq, hc.send_full, ?_, hc.fifo, hc.nil_open⟩
       intro hn
       have := hc.nil_empty hn
       simp only [pushQ]; rw [if_pos hn]
@@ -209,7 +211,7 @@ theorem recvTail_inv_pushed (s1 : State) (g c x : Nat) (h : AllInv s1.chans) (hl
     have hl : b.length = ch.buf.length := by
       have := congrArg List.length heq; simp at this; omega
     have hle := hc.buf_le
-    refine ⟨by dsimp only; omega, ?_, by intro _; dsimp only; omega, ?_, ?_⟩
+    refine ⟨by dsimp only; omega, ?_, by intro _; dsimp only; omega, ?_, ?_, hc.nil_open⟩
     · intro hr; have := hc.recv_buf hr; rw [this] at hl; simpa using hl
     · intro hn; have := hc.nil_empty hn
       refine ⟨this.1, this.2.1, ?_, this.2.2.2⟩
@@ -282,12 +284,13 @@ theorem doClose_inv (s : State) (c : Nat) (h : AllInv s.chans) : AllInv (doClose
   unfold doClose; simp only
   split
   · exact h
-  · split
+  · next hnn =>
+    split
     · exact h
     · have hc : ChanInv (getC s c) := h c
       have h1 : AllInv (setC s c { getC s c with closed := true }).chans := by
         simp only [setC_chans]; apply h.set
-        exact ⟨hc.buf_le, hc.recv_buf, hc.send_full, hc.nil_empty, hc.fifo⟩
+        exact ⟨hc.buf_le, hc.recv_buf, hc.send_full, hc.nil_empty, hc.fifo, fun hn => absurd hn hnn⟩
       exact h1.shrinks (closeLoops_shrinks _ _ _)
 
 /-- what "no case is ready" gives for the registration loop -/
@@ -324,7 +327,7 @@ theorem registerCases_inv (g : Nat) (cases : List Case) : ∀ (i : Nat) (cs : Li
       have hc := h c
       apply ih
       · apply h.set
-        refine ⟨hc.buf_le, fun _ => hk.1, hc.send_full, ?_, hc.fifo⟩
+        refine ⟨hc.buf_le, fun _ => hk.1, hc.send_full, ?_, hc.fifo, hc.nil_open⟩
         intro hnil; have := hc.nil_empty hnil; simp only [pushQ]; rw [if_pos hnil]; exact this
       · exact stable _ c rfl rfl rfl
     | send c v =>
@@ -332,7 +335,7 @@ theorem registerCases_inv (g : Nat) (cases : List Case) : ∀ (i : Nat) (cs : Li
       have hc := h c
       apply ih
       · apply h.set
-        refine ⟨hc.buf_le, hc.recv_buf, fun _ => hk.1, ?_, hc.fifo⟩
+        refine ⟨hc.buf_le, hc.recv_buf, fun _ => hk.1, ?_, hc.fifo, hc.nil_open⟩
         intro hnil; have := hc.nil_empty hnil; simp only [pushQ]; rw [if_pos hnil]; exact this
       · exact stable _ c rfl rfl rfl
 
@@ -758,5 +761,10 @@ theorem runAll_ce : ∀ (evs : List Event) (s : State), AllCE s.chans → AllCE 
   intro evs; induction evs with
   | nil => intro s h; exact h
   | cons e es ih => intro s h; exact ih _ (step_ce s e h)
+
+theorem allCE_mem {cs : List Chan} (h : AllCE cs) {ch : Chan} (hm : ch ∈ cs) : CE ch := by
+  obtain ⟨i, hi, rfl⟩ := List.getElem_of_mem hm
+  have := h i
+  simpa [List.getD_eq_getElem?_getD, List.getElem?_eq_getElem hi] using this
 
 end GV.Proofs.ChanInv
